@@ -112,6 +112,65 @@ func c16Tree(n ast.Node) any {
 	return map[string]any{"k": "other"}
 }
 
+// c16Tree2 renders the fragment of the second model type (Model2.v): the forms of c16Tree plus IS [NOT] NULL,
+// x IS [NOT] y, [NOT] LIKE-family without ESCAPE, [NOT] BETWEEN, [NOT] IN (list), calls with plain arguments, tuples.
+func c16Tree2(n ast.Node) any {
+	list := func(items []ast.Node) []any {
+		out := []any{}
+		for _, it := range items {
+			out = append(out, c16Tree2(it))
+		}
+
+		return out
+	}
+
+	switch v := n.(type) {
+	case *ast.BinaryExpr:
+		return map[string]any{"k": "bin", "op": v.Op, "x": c16Tree2(v.X), "y": c16Tree2(v.Y)}
+	case *ast.UnaryExpr:
+		return map[string]any{"k": "un", "op": v.Op, "x": c16Tree2(v.X)}
+	case *ast.ParenExpr:
+		return map[string]any{"k": "paren", "x": c16Tree2(v.X)}
+	case *ast.IsNullExpr:
+		return map[string]any{"k": "isnull", "x": c16Tree2(v.X), "neg": v.Not}
+	case *ast.IsExpr:
+		if v.Distinct {
+			return map[string]any{"k": "other"}
+		}
+
+		op := "IS"
+		if v.Not {
+			op = "IS NOT"
+		}
+
+		return map[string]any{"k": "bin", "op": op, "x": c16Tree2(v.X), "y": c16Tree2(v.Y)}
+	case *ast.LikeExpr:
+		if v.Escape != nil {
+			return map[string]any{"k": "other"}
+		}
+
+		return map[string]any{"k": "like", "op": v.Op, "x": c16Tree2(v.X), "p": c16Tree2(v.Pattern), "neg": v.Not}
+	case *ast.BetweenExpr:
+		return map[string]any{"k": "between", "x": c16Tree2(v.X), "lo": c16Tree2(v.Low), "hi": c16Tree2(v.High), "neg": v.Not}
+	case *ast.InExpr:
+		if v.Sub != nil || len(v.List) == 0 {
+			return map[string]any{"k": "other"}
+		}
+
+		return map[string]any{"k": "in", "x": c16Tree2(v.X), "items": list(v.List), "neg": v.Not}
+	case *ast.FuncCall:
+		if v.Star || v.Distinct || v.Filter != nil || len(v.Args) == 0 || strings.Contains(v.Name, ".") {
+			return map[string]any{"k": "other"}
+		}
+
+		return map[string]any{"k": "call", "f": hex.EncodeToString([]byte(v.Name)), "args": list(v.Args)}
+	case *ast.ExprList:
+		return map[string]any{"k": "tuple", "items": list(v.Items)}
+	}
+
+	return c16Tree(n)
+}
+
 func c16Toks(src string) (any, bool) {
 	toks, err := newLexer(src, ast.DialectSQLite).tokenize()
 	if err != nil {
@@ -320,6 +379,7 @@ func TestVerifC16(t *testing.T) {
 				}
 
 				res["tree"] = c16Tree(n)
+				res["xtree"] = c16Tree2(n)
 				res["dump"] = c16DumpNode(n)
 				pr := &printer{dialect: ast.DialectSQLite}
 				pr.expr(n)
